@@ -1,5 +1,29 @@
 """Per-property manifest texts."""
 CHECKS = {
+    "C01": {
+        "text": "Sem.tla gives the SCM semantics (generic stochastic models compatible with a mixed graph, evaluated in GF(32749)) and the denotation Den of y0's expression language; ID.tla is a reference ID carrying the current distribution as a term. TLC model-checks the reference sound against the semantics on every 3-node ADMG and query (IDMachine: Sound). Every TLC-generated (G,X,Y) is then run through the real identify_outcomes/identify and the returned estimand is validated by TLC as a trace (TV.tla): Den(estimand) must equal P(Y|do X) by truncated factorisation at every value assignment of every variable (so a dependence on a free variable outside X and Y is a failure) for 2-3 independent generic models.",
+        "ref": "DESIGN.md section 4/C01",
+        "note": "Exhaustive on all 200 three-node ADMGs x 12 queries; seeded samples of the 4096 ordered four-node ADMGs x 50 queries and of five-node graphs; binary variables (one ternary, clique latents in thorough). Polynomial identity testing: a wrong estimand escapes with probability <= deg/32749 per model. Trusted: TLC, Sem.tla.",
+        "technique": "TLA+ specification of SCM semantics + reference algorithm, TLC model checking (soundness invariant), trace validation of the implementation's outputs by TLC",
+    },
+    "C02": {
+        "text": "ID.tla contains three independent characterisations of identifiability (the reference ID's verdict, the Tian/Huang-Valtorta criterion TianOK, brute-force hedge existence HedgeEx); TLC model-checks them equal on every 3-node ADMG and query (IDMachine: Complete). The outcome class of the real identify_outcomes/identify (estimand, unidentifiable, any other exception, caller's graph or query changed) for every query on every ADMG with <= 4 nodes is validated by TLC (TV.tla) against TianOK, under 2 insertion orders and both APIs.",
+        "ref": "DESIGN.md section 4/C02",
+        "note": "Exhaustive <= 4 nodes (quick: the 4096 topologically numbered 4-node ADMGs, thorough: all 34752), seeded 5- and 6-node graphs. Side-effect clause compares the projected caller graph and query sets before/after in the driver. Trusted: TLC, TianOK.",
+        "technique": "TLA+ specification with three verdict characterisations model-checked equal by TLC; outcome classes of the implementation validated as traces by TLC",
+    },
+    "C03": {
+        "text": "ID.tla defines a reference IDC on top of the reference ID and true m-separation (Separation.tla); TLC model-checks that its result denotes P(Y,Z|do X)/P(Z|do X) on all 3-node ADMGs and all pairwise disjoint (X,Y,Z) (IDMachine mode idc: Sound). Every TLC-generated query is run through identify_outcomes(conditions=Z)/idc and the estimand is validated by TLC (TV.tla) against the conditional interventional truth at all assignments of 2-3 generic models; any outcome other than an estimand or the refusal is rejected.",
+        "ref": "DESIGN.md section 4/C03",
+        "note": "Exhaustive on 3-node ADMGs (3600 queries), seeded sample of 4-node ADMGs x 110 queries, seeded 5-node graphs. Points where P(Z|do X)=0 in GF(p) are skipped. No completeness claim.",
+        "technique": "TLA+ specification + TLC model checking of the reference IDC; trace validation of implementation outputs by TLC",
+    },
+    "C06": {
+        "text": "The vocabulary predicates are part of the specification (ID.tla: ObsOnly) and invariants of the reference machines (IDMachine: Vocab, model-checked on all 3-node inputs). Every estimand returned by the real ID and IDC on the TLC-generated query families is serialised and TLC evaluates the predicate on it (TV.tla kind vocab); estimands that mention names outside the graph cannot be serialised and are reported as vocabulary failures.",
+        "ref": "DESIGN.md section 4/C06",
+        "note": "Currently covers ID and IDC (3-node exhaustive, 4-node seeded); the transport / ID* / IDC* parts join as their drivers are added (evidence lists estimands inspected per algorithm).",
+        "technique": "TLA+ predicates as invariants of the reference machines (TLC) and as trace-validation clauses on implementation outputs",
+    },
     "C14": {
         "text": "GraphOps.tla (one action per public NxMixedGraph operation) is model-checked by TLC against the algebraic laws of MixedGraph.tla on all 512 mixed graphs with 3 nodes; TLC then generates every depth-1 behaviour over those graphs (all node subsets, all 15 operations) plus seeded walks of depth 3-4 on 3- and 5-node graphs, and each behaviour is replayed through the real NxMixedGraph under 3 insertion orders with the projected (nodes, directed, bidirected) state compared with the spec state after every action and the receiver compared before/after.",
         "ref": "DESIGN.md section 4/C14",
